@@ -58,6 +58,10 @@ class Boom(Exception):
     """Unexpected resolver exception (fault F3)."""
 
 
+class DeniedError(ResolverError):
+    """The library documents subclassing ResolverError for expected errors."""
+
+
 def _stamp_parse(v):
     if isinstance(v, str) and v.startswith("S:"):
         return int(v[2:])
@@ -116,9 +120,12 @@ def _start(tname, fname, root, ctx, info):
 def _finish(tname, fname, root, ctx, kwargs, tok):
     path, seq = tok
     fault = ctx.faults.get(path)
-    if fault in ("err", "errx"):
+    if fault in ("err", "errx", "errs"):
         ctx.log("rx", path, ctx.req_id)
         ctx.count("F1_resolver_error")
+        if fault == "errs":
+            ctx.count("F1_resolver_error_subclass")
+            raise DeniedError(error_message(path))
         raise ResolverError(
             error_message(path),
             extensions=error_extensions(path) if fault == "errx" else None,
